@@ -50,6 +50,14 @@ Expected(ev) ==
          [] ev.method = "get_values_typed" ->
                LET m == CellsArea(t, a.x, a.y, a.z, a.t)
                IN [i \in 1..Len(m) |-> TypedLine(m[i], a.complete, Max(0, Min(a.z + 1, Width(t)) - a.x))]
+         (* get_cells(coord, style= / cell_type= / content=): per line, the cells of the area that pass the filter             *)
+         (* ("ce1" is the style of the styled empty cell S; "k" is the text of the untyped text cell K)                         *)
+         [] ev.method = "get_cells_filtered" ->
+               LET m == CellsArea(t, a.x, a.y, a.z, a.t)
+                   keep(c) == CASE a.f = "style" -> c = S
+                                [] a.f = "typed" -> Typed(c)
+                                [] a.f = "content" -> c = K
+               IN [i \in 1..Len(m) |-> SelectSeq(m[i], keep)]
          [] ev.method = "get_column_values_typed" ->
                LET col == [y \in 1..Height(t) |-> Value(t, a.x, y - 1)]
                IN IF a.complete THEN [y \in 1..Height(t) |-> IF Typed(col[y]) THEN col[y] ELSE E] ELSE SelectSeq(col, Typed)
